@@ -12,6 +12,7 @@ import re
 from .expr import to_poly, Poly, canon, show
 
 RANGE_NEXT = re.compile(r"^std::iter::range::<impl std::iter::Iterator for std::ops::Range<A>>::next$")
+RANGE_INCL_NEXT = re.compile(r"^std::iter::range::<impl std::iter::Iterator for std::ops::RangeInclusive<A>>::next$")
 REV_NEXT = re.compile(r"^<std::iter::Rev<I> as std::iter::Iterator>::next$")
 MIN_FNS = ("std::cmp::Ord::min", "core::cmp::Ord::min", "std::cmp::min", "core::cmp::min", "usize::min")
 
@@ -32,6 +33,12 @@ def loop_var_parts(e):
     if RANGE_NEXT.match(c[1]):
         r = _range_of(c[2][0])
         return ("up",) + r if r else None
+    if RANGE_INCL_NEXT.match(c[1]):
+        a = c[2][0]
+        if a[0] == "call" and a[1].endswith("RangeInclusive::<Idx>::new") and len(a[2]) == 2:
+            # a..=b  ==  a..b+1
+            return ("up", a[2][0], ("bin", "Add", a[2][1], ("c", 1, "i", None)))
+        return None
     if REV_NEXT.match(c[1]):
         inner = c[2][0]
         if inner[0] == "call" and inner[1].endswith("Iterator::rev") and len(inner[2]) == 1:
